@@ -122,7 +122,7 @@ func GenerateFingerprint(fn *ssa.Function, policy ir.LiteralPolicy, strictMode b
 	if len(fn.Blocks) > MaxFunctionBlocks {
 		return FingerprintResult{
 			FunctionName: fn.RelString(nil),
-			Fingerprint:  "OVERSIZED",
+			Fingerprint:  oversizedFingerprint(fn),
 			CanonicalIR:  fmt.Sprintf("; Skipped: Function too large (%d blocks > %d)", len(fn.Blocks), MaxFunctionBlocks),
 			Pos:          fn.Pos(),
 			Line:         line,
@@ -154,6 +154,24 @@ func GenerateFingerprint(fn *ssa.Function, policy ir.LiteralPolicy, strictMode b
 		Filename:     filename,
 		fn:           fn,
 	}
+}
+
+// oversizedFingerprint identifies a function that is too large to canonicalize by a
+// hash of its raw SSA instructions.  It is not invariant under refactoring, but two
+// oversized functions only share it when their code is the same, so an edit inside
+// such a function is never reported as a fingerprint match.
+func oversizedFingerprint(fn *ssa.Function) string {
+	h := sha256.New()
+	for _, b := range fn.Blocks {
+		fmt.Fprintf(h, "b%d:\n", b.Index)
+		for _, instr := range b.Instrs {
+			if v, ok := instr.(ssa.Value); ok {
+				fmt.Fprintf(h, "%s = ", v.Name())
+			}
+			fmt.Fprintf(h, "%s\n", instr.String())
+		}
+	}
+	return "OVERSIZED:" + hex.EncodeToString(h.Sum(nil))
 }
 
 func FingerprintSource(filename string, src string, policy ir.LiteralPolicy) ([]FingerprintResult, error) {
